@@ -8,6 +8,7 @@ from __future__ import annotations
 import ast
 import builtins
 import collections
+import dataclasses
 import datetime
 import functools
 import itertools
@@ -23,7 +24,7 @@ from .values import (Val, INT, BOOL, REAL, STR, TD, NONE, CONC, IntS, BoolS, Rea
                      NoneS, OptS, TupS, RecS, SeqS, EnumS, UnionS, MapS, DictS, ConcS, VNONE)
 from .objects import (Closure, LocalClass, PyMap, Obj, ExcInst, MatchObj, BoundMethod,
                       BuiltinMethod, GenExp, RangeObj, EnumerateObj, FilterObj, IsliceObj,
-                      ItemsObj, RxSym, PYINT, DECOK, PYPOW, SymbolicFile, SuperProxy)
+                      ItemsObj, RxSym, PYINT, DECOK, PYPOW, SymbolicFile, SuperProxy, KeyVal)
 from .state import State, Env, VCtx, OutOfSubset, BindingLost
 from .solve import feasible
 from .source import key_of_function, class_key, live_module
@@ -107,6 +108,8 @@ class Engine:
         """Ground python object -> Val (symbolic constant where possible)."""
         if isinstance(obj, Val):
             return obj
+        if isinstance(obj, KeyVal):
+            return obj.val
         if obj is None:
             return VNONE
         if isinstance(obj, bool):
@@ -340,34 +343,137 @@ class Engine:
         return V.seq_of([V.coerce(i, sh) for i in items], sh)
 
     def e_Dict(self, node, st):
-        if node.keys:
-            raise OutOfSubset("non-empty dict literal")
-        return V.vconc(PyMap())
+        out = PyMap()
+        for kn, vn in zip(node.keys, node.values):
+            if kn is None:
+                raise OutOfSubset("dict literal with ** unpacking")
+            kv = self.eval(kn, st)
+            if isinstance(kv.shape, StrS) and z3.is_string_value(kv.d):
+                key = kv.d.as_string()
+            elif isinstance(kv.shape, IntS) and z3.is_int_value(kv.d):
+                key = kv.d.as_long()
+            elif isinstance(kv.shape, ConcS):
+                key = kv.d
+            else:
+                key = KeyVal(kv)
+            out.items[key] = self.eval(vn, st)
+        return V.vconc(out)
 
     def e_JoinedStr(self, node, st):
         for part in node.values:
             if isinstance(part, ast.FormattedValue):
                 v = self.eval(part.value, st)
                 self.render_check(v, st, part.conversion)
+                if part.format_spec is not None:
+                    self.format_spec_check(v, part, st)
         self.ctx.assumptions.add("str()/format() of int, float, str, enum, timedelta, list and dict of such never raises")
         return V.fresh(STR, "fstr")
 
-    def render_check(self, v: Val, st, conversion=-1):
-        """Formatting a value calls its __str__ (or __repr__ with !r): a __str__ defined in the
-        package is executed (inlined or via its contract); everything else is library rendering."""
+    _FORMAT_SAMPLES = {IntS: (0, 7, -5, 10**20), RealS: (0.0, 0.5, -1e300, 3.0, 120.0), StrS: ("", "abc"),
+                       BoolS: (True, False), TdS: (datetime.timedelta(0), datetime.timedelta(seconds=1, microseconds=5))}
+
+    def format_spec_check(self, v: Val, part, st):
+        """`{x:spec}`: whether format(x, spec) raises depends on the type of x and the spec, not on
+        the value (assumed; true of the d/f/s/fill/width specs).  Decided by formatting sample
+        values of the static type with the real format()."""
         if self.spec_mode:
             return
-        sv = v
-        if isinstance(sv.shape, OptS):
-            sv = sv.d[1]
-        if isinstance(sv.shape, RecS):
-            cls = self.live_class(sv.shape.key)
-            name = "__repr__" if conversion == ord("r") else "__str__"
-            fn = self.find_method(cls, name)
-            if fn is None and name == "__str__":
-                fn = self.find_method(cls, "__repr__") if "__repr__" not in cls.__dict__ else None
-            if fn is not None:
-                self.call_repo(fn, [sv], {}, st)
+        if not all(isinstance(p, ast.Constant) for p in part.format_spec.values):
+            raise OutOfSubset("computed format spec")
+        spec = "".join(str(p.value) for p in part.format_spec.values)
+        if spec == "":
+            return
+        if part.conversion != -1:
+            samples = ("", "abc")
+        else:
+            samples = None
+            for k, sm in self._FORMAT_SAMPLES.items():
+                if isinstance(v.shape, k):
+                    samples = sm
+            if samples is None:
+                # any other value: object.__format__ rejects a non-empty spec (enum members, None,
+                # dataclass instances without __format__, lists, tuples)
+                self.ctx.oblige("format-spec-accepted", st, z3.BoolVal(False), kind="safety")
+                return
+        ok = True
+        for x in samples:
+            try:
+                format(x, spec)
+            except Exception:
+                ok = False
+        self.ctx.assumptions.add("format(x, spec) raises for a type/spec combination or for none of its values (checked on sample values with the real format())")
+        self.ctx.oblige("format-spec-accepted", st, z3.BoolVal(ok), kind="safety")
+
+    def render_check(self, v: Val, st, conversion=-1, depth=0):
+        """Formatting a value calls its __str__ (or __repr__ with !r or inside a container).  The
+        method in effect is read from the live class: one defined in the package is executed
+        (inlined, or through its contract); a dataclass-generated __repr__ renders every field
+        with repr() (followed recursively); everything else is library rendering (assumed total)."""
+        if self.spec_mode:
+            return
+        if depth > 12:
+            raise OutOfSubset("rendering recursion")
+        r = ord("r")
+        s = v.shape
+        if isinstance(s, OptS):
+            return self.render_check(v.d[1], st, conversion, depth + 1)
+        if isinstance(s, UnionS):
+            for alt in v.d[1]:
+                self.render_check(alt, st, conversion, depth + 1)
+            return
+        if isinstance(s, TupS):
+            for x in v.d:
+                self.render_check(x, st, r, depth + 1)
+            return
+        if isinstance(s, SeqS):
+            if isinstance(s.elem, (RecS, SeqS, OptS, UnionS, TupS, MapS)):
+                k = z3.Int(V.fresh_name("ri"))
+                st.pc.append(z3.And(k >= 0, k < v.d[1]))
+                e = V.seq_select(v, k)
+                st.assume(V.wf(e))
+                self.render_check(e, st, r, depth + 1)
+            return
+        if isinstance(s, (MapS, DictS)):
+            mv = v if isinstance(s, MapS) else v.d[0]
+            ms = mv.shape
+            if isinstance(ms.val, (RecS, SeqS, OptS, UnionS, TupS, MapS)):
+                kv = V.fresh(ms.key, "rk")
+                st.assume(V.wf(kv))
+                k = V.leaves(kv)[0]
+                st.pc.append(z3.Select(mv.d[0], k))
+                val = V.from_leaves(ms.val, [z3.Select(a_, k) for a_ in mv.d[1]])
+                st.assume(V.wf(val))
+                self.render_check(val, st, r, depth + 1)
+            return
+        if isinstance(s, EnumS):
+            cls = self.live_class(s.key)
+            for name in ("__str__", "__repr__", "__format__"):
+                m = getattr(cls, name, None)
+                if (getattr(m, "__module__", "") or "").startswith("chartparse"):
+                    raise OutOfSubset(f"package-defined {name} on enum {s.key}")
+            return
+        if not isinstance(s, RecS):
+            return
+        cls = self.live_class(s.key)
+        name = "__repr__" if conversion == r else "__str__"
+        m = getattr(cls, name)
+        if m is object.__str__:
+            m = getattr(cls, "__repr__")
+        if m is object.__repr__:
+            return
+        gen = getattr(m, "__wrapped__", m)       # reprlib.recursive_repr wrapper around the generated function
+        code = getattr(gen, "__code__", None)
+        if code is not None and code.co_filename == "<string>" and dataclasses.is_dataclass(cls):
+            # dataclasses-generated __repr__: repr() of every field with repr=True
+            self.ctx.assumptions.add("the dataclasses-generated __repr__ renders each repr field with repr() and raises only if one of those does")
+            for f in dataclasses.fields(cls):
+                if f.repr and f.name in v.d:
+                    self.render_check(v.d[f.name], st, r, depth + 1)
+            return
+        if (getattr(m, "__module__", "") or "").startswith("chartparse"):
+            self.call_repo(m, [v], {}, st)
+            return
+        raise OutOfSubset(f"{name} of {s.key} is neither package-defined, dataclass-generated nor object's")
 
     def e_Lambda(self, node, st):
         return V.vconc(Closure(node, st.cur, self.fctx.qualname + ".<locals>.<lambda>", self.fctx.module))
@@ -475,6 +581,9 @@ class Engine:
             t = self.truth(v, st)
             vals.append((v, t))
             conds.append(t)
+            ts = z3.simplify(t)
+            if (z3.is_false(ts) and isinstance(node.op, ast.And)) or (z3.is_true(ts) and isinstance(node.op, ast.Or)):
+                break       # short circuit decided statically: the remaining operands are not evaluated
             g = t if isinstance(node.op, ast.And) else z3.Not(t)
             st.guards.append(g)
             pushed += 1
@@ -766,7 +875,7 @@ class Engine:
                 return V.vconc(BuiltinMethod(v, "list." + name))
             raise OutOfSubset(f"list.{name}")
         if isinstance(s, StrS):
-            if name in ("format", "splitlines"):
+            if name in ("format", "splitlines", "join"):
                 return V.vconc(BuiltinMethod(v, "str." + name))
             raise OutOfSubset(f"str.{name}")
         if isinstance(s, RealS):
@@ -823,7 +932,15 @@ class Engine:
             if raw is None:
                 raise AttributeError(name)
         except AttributeError:
-            raise BindingLost(f"{cls.__name__} has no attribute {name}")
+            declared = set()
+            for k in cls.__mro__:
+                declared |= set(getattr(k, "__annotations__", {}) or {})
+            if name in declared or self.spec_mode or not isinstance(getattr(selfval, "shape", None), RecS):
+                # a declared field the sidecar shape does not know: the contract is out of date
+                raise BindingLost(f"{cls.__name__} has no attribute {name}")
+            # neither a field, a class attribute nor an annotation of any base: python raises
+            self.raise_side(st, "AttributeError", z3.BoolVal(True))
+            raise DeadPath()
         if isinstance(raw, (functools.cached_property, property)):
             fn = raw.func if isinstance(raw, functools.cached_property) else raw.fget
             if isinstance(raw, functools.cached_property):
